@@ -41,12 +41,16 @@ def eqObs (tlsUsed : Bool) (m o : Obs) : Bool :=
     (!tlsUsed || m.leak == o.leak)
 
 def driverLine (inp obs : List String) : Bool × Bool × String × String :=
+  let (inp, extra) := (inp.take 7, inp.drop 7)
+  let (fromParts, hostHdr) := match extra with
+    | [b, hh] => (b == "p", optS hh)
+    | _ => (false, none)
   match inp, obs with
   | [cfg, ac, scheme, host, _port, peer, asv], [res, wire, leak, sni, alpn, app, nv] =>
     match parsePeer peer, parseRes res, parseWire wire with
     | some p, some r, some w =>
       let c : Case := { cfg := cfg == "1", alpnC := parseAlpn ac, scheme := scheme, host := host, peer := p,
-                        alpnS := parseAlpn asv, nameValid := nv == "1" }
+                        alpnS := parseAlpn asv, nameValid := nv == "1", hostHeader := hostHdr, fromParts := fromParts }
       let o : Obs := { res := r, wire := w, leak := leak == "1", sni := optS sni, alpn := optS alpn, app := app == "1" }
       let m := run c
       (eqObs (usesTls c) m o, specOk c o, (verdict c o).getD "-", showObs m)
